@@ -93,7 +93,8 @@ func c02Envs(thorough bool) []EnvCfg {
 	for _, ch := range chunks {
 		for _, wl := range []bool{false, true} {
 			for _, z := range zs {
-				r = append(r, EnvCfg{Chunk: ch, ErrWithLast: wl, ZeroReads: z})
+				// a source is under no obligation to repeat its error: half of the policies answer a Read after the error with garbage
+				r = append(r, EnvCfg{Chunk: ch, ErrWithLast: wl, ZeroReads: z, AfterErr: (ch + z) % 2})
 			}
 		}
 	}
